@@ -29,7 +29,7 @@ Print Assumptions append_refines.
 Theorem remove_pos_refines : forall mai t n pos,
   bounded mai t -> len (arr t) + 1 < mai -> is_list (RawGet mai t) n -> 1 <= pos <= n ->
   let r := tableRemove2 t pos in
-  fst r = lnth (view (RawGet mai t) n) pos /\
+  fst r = Some (lnth (view (RawGet mai t) n) pos) /\
   is_list (RawGet mai (snd r)) (n - 1) /\
   view (RawGet mai (snd r)) (n - 1) = remove_at pos (view (RawGet mai t) n) /\
   (forall k, not_pos_int k -> RawGet mai (snd r) k = RawGet mai t k) /\
@@ -58,15 +58,21 @@ Theorem remove_default_refines : forall mai t n,
 Proof. exact remove_default_refines_lemma. Qed.
 Print Assumptions remove_default_refines.
 
-Theorem remove_empty : forall mai t,
-  bounded mai t -> len (arr t) + 1 < mai -> is_list (RawGet mai t) 0 ->
-  fst (tableRemove1 t) = VNil /\ forall k, RawGet mai (snd (tableRemove1 t)) k = RawGet mai t k.
-Proof. exact remove_empty_lemma. Qed.
-Print Assumptions remove_empty.
+(* a position outside 1..n, in particular any table.remove on the empty list, removes nothing
+   and returns no value (Lua 5.1 tremove; was different before fix 5e1cfe4) *)
+Theorem remove_outside : forall mai t n opos,
+  bounded mai t -> len (arr t) + 1 < mai -> is_list (RawGet mai t) n ->
+  optz opos n < 1 \/ n < optz opos n ->
+  tableRemove t opos = (None, t).
+Proof. exact remove_outside_lemma. Qed.
+Print Assumptions remove_outside.
 
+(* getn is n; maxn (the largest positive numeric key of the whole table, fix ef2c8e3) is n when
+   the hash part holds no numeric key above n *)
 Theorem getn_maxn : forall mai t n,
   bounded mai t -> len (arr t) + 1 < mai -> is_list (RawGet mai t) n ->
-  tableGetN t = n /\ tableMaxN t = n.
+  (forall k, In k (map fst (dict t)) -> num_ltb (KInt n) k = false) ->
+  tableGetN t = n /\ tableMaxN t = KInt n.
 Proof. exact getn_maxn_lemma. Qed.
 Print Assumptions getn_maxn.
 
@@ -78,7 +84,7 @@ Print Assumptions unpack_refines.
 
 Theorem concat_refines : forall mai t n sep oi oj,
   bounded mai t -> len (arr t) + 1 < mai -> is_list (RawGet mai t) n ->
-  1 <= optz oi 1 -> optz oj n <= n ->
+  1 <= optz oi 1 ->
   tableConcat mai t sep oi oj = concat_spec (view (RawGet mai t) n) sep (optz oi 1) (optz oj n).
 Proof. exact concat_refines_lemma. Qed.
 Print Assumptions concat_refines.
